@@ -153,7 +153,7 @@ class Ref:
             ctx=ctx_view(self.filtered_context(i, context)) if self.sc.get('embed_ctx', True) else (),
             deps=tuple(dep_digests),
             extra=(f"{n['tag']}!{i}" if n['type'] == 'TP' else None),
-            pad=make_pad(shape if shape is not None else n.get('shape'), i),
+            pad=('self-and-dependency-task-objects',) if n['type'] == 'TR' else make_pad(shape if shape is not None else n.get('shape'), i),
         )
 
     # -- evaluator
